@@ -70,7 +70,8 @@ class Ctx:
                 gm = open(os.path.join(hdir, "go.mod")).read().replace("=> /repo", "=> " + repo)
                 open(os.path.join(hdir, "go.mod"), "w").write(gm)
             outdir = self.scratch
-        out = os.path.join(outdir, "drv-race" if race else "drv")
+        # one binary per check: checks of different properties may run at the same time
+        out = os.path.join(outdir, "drv-%s%s" % (self.id, "-race" if race else ""))
         cmd = ["go", "build", "-tags", "verif"] + (["-race"] if race else []) + ["-o", out, "./cmd/drv"]
         # go.sum of the harness must cover what the repository needs
         try:
